@@ -1189,6 +1189,19 @@ func runServer(r *common.Run, c srvCase, class string) error {
 	if perr != nil {
 		r.Fail("server-output-wellformed", "xml", lines, perr.Error())
 	}
+	for _, x := range sent {
+		if strings.HasPrefix(x, "fail/") {
+			ok := false
+			for _, d := range definedConds {
+				if x == "fail/"+d {
+					ok = true
+				}
+			}
+			if !ok {
+				r.Fail("server-failure-condition-defined", x, lines, "the receiving side refused with a <failure/> that carries no defined condition; an initiating entity cannot tell why")
+			}
+		}
+	}
 	consumed := len(delivered)
 	for _, a := range advertised {
 		if strings.HasSuffix(a, "-PLUS") {
